@@ -2,6 +2,7 @@
 import os
 
 from harness import common
+from harness import families
 from harness import gen
 from harness import meta
 from harness import semrun
@@ -48,9 +49,14 @@ def Cases(tier):
   limit = 7 if tier == 'quick' else 40
   rng = common.Rng(PROP)
   cases = []
-  for i in range(n):
-    prog, query, feats = gen.Generate(rng, gen.SUGAR)
-    if i % 4 == 0:
+  n_fam = 2 * len(families.SEM_FAMILIES) if tier == 'quick' else 40
+  for i in range(n + n_fam):
+    if i >= n:
+      name, fn = families.SEM_FAMILIES[(i - n) % len(families.SEM_FAMILIES)]
+      prog, query, feats = fn(rng)
+    else:
+      prog, query, feats = gen.Generate(rng, gen.SUGAR)
+    if i % 4 == 0 and i < n:
       prog = meta.SameHeadRules(prog, rng)
     bid = 'b%d' % i
     cases.append({'id': bid, 'prog': prog, 'query': query,
@@ -64,7 +70,8 @@ def Cases(tier):
   return cases + semrun.Reproducers(PROP)
 
 
-REQUIRED = ['sugar_head_positional_as_named', 'sugar_head_value_long',
+REQUIRED = ['fam_repeated_call', 'fam_double_negation', 'fam_bound_in_repeated',
+            'sugar_head_positional_as_named', 'sugar_head_value_long',
             'sugar_head_value_long_agg', 'sugar_atom_positional_as_named',
             'sugar_eq_single', 'sugar_combine_syntax',
             'sugar_neg_as_max_is_null', 'sugar_neg_as_implication',
